@@ -416,13 +416,21 @@ impl TokenStream<'_> {
 
     /// Advances the token stream by the provided offset.
     /// The other values do not change.
-    /// Number of consecutive comment tokens behind the first `offset` tokens of this stream.
-    pub fn comments_at(&self, offset: usize) -> usize {
-        self.tokens
-            .iter()
-            .skip(offset)
-            .take_while(|token| matches!(token.token_type, TokenType::Comment(_)))
-            .count()
+    /// Number of tokens behind the first `offset` tokens of this stream,
+    /// up to and including the `n`-th token that is not a comment.
+    pub fn look_ahead_len(&self, offset: usize, n: usize) -> usize {
+        let mut missing = n;
+        let mut len = 0;
+        for token in self.tokens.iter().skip(offset) {
+            if missing == 0 {
+                break;
+            }
+            len += 1;
+            if !matches!(token.token_type, TokenType::Comment(_)) {
+                missing -= 1;
+            }
+        }
+        len + missing
     }
 
     pub fn advance(self, offset: usize) -> Self {
